@@ -108,7 +108,8 @@ F = [
  ("D23", "make Sqrt correctly rounded and report Inexact reliably",
   "Sqrt double-rounded near rounding boundaries (Sqrt(0.999999999) P=9 = 1.00000000) and lost Inexact when its guard digits were zero (Sqrt(99999999) P=9)",
   {"C11": [ar("sqrt", ctx(9, 99, -99), dec(999999999, -9)), ar("sqrt", ctx(9, 9, 0, "down"), dec(99999999)), ar("sqrt", ctx(9, 9, 0, "down"), dec(999999999, 1))],
-   "C02": [ar("sqrt", ctx(9, 9, 0, "down"), dec(99999999))]}),
+   "C02": [ar("sqrt", ctx(9, 9, 0, "down"), dec(99999999))],
+   "C07": [ar("sqrt", ctx(21, 22, -2, "ceiling"), dec("100000000000000000000000000000000000000009", -58))]}),
  ("D24", "Exp no longer rounds its argument to the working precision",
   "Exp rounded its argument to the working precision: Exp(9.123456789012345) at Precision 4 returned 9164 (true 9167.8)",
   {"C12": [ar("exp", ctx(4, 1000, -1000), dec(9123456789012345, -15))]}),
@@ -134,6 +135,12 @@ F = [
  ("D31", "Rem with an infinite divisor rounds its result",
   "Rem(x, Infinity) copied x without applying the context: Rem(900, Inf) with MaxExponent 1 returned 900",
   {"C08": [{"op": "rem", "ctx": ctx(1, 1, 0, "down"), "x": dec(9, 2), "y": INF, "cx": "+odd", "cy": "+Inf"}]}),
+ ("D33", "Exp raises its working precision enough for arguments just above a multiple of 23",
+  "Exp reported Overflow for arguments a hair above a multiple of 23 (the working precision was derived from |x| rounded to a float64): Exp(3611.0000000000000000001) P=41 Emax=100000 returned Infinity",
+  {"C12": [ar("exp", ctx(41, 100000, -100000, "down"), dec("36110000000000000000001", -19)), ar("exp", ctx(41, 100000, -100000, "down"), dec("98900000000000004", -14))]}),
+ ("D34", "Cbrt reduces the decimal exponent before the binary range reduction",
+  "Cbrt failed with 'did not converge' for operands with large exponents at low precision (accumulated rounding of tens of thousands of multiplications by 8): Cbrt(9E-50000) at Precision 1",
+  {"C11": [ar("cbrt", ctx(1, 1, -100000, "down"), dec(9, -50000)), ar("cbrt", ctx(1, 1, -100000, "down"), dec(729, -50002))]}),
  ("D32", "Ln computes its intermediate values in the full exponent range",
   "Ln failed to converge under a narrow exponent range: Ln(5.69) with Precision 21, MinExponent 0 returned 'did not converge after 32 iterations'",
   {"C12": [ar("ln", ctx(21, 21, 0, "down"), dec(569, -2))]}),
